@@ -662,6 +662,21 @@ def run(ctx):
     C = Classes(ctx)
     known = rule_K1_K2(ctx, C)
     rule_K2_plain(ctx)
+    from . import c12
+    sm_ = ctx.repo.mod('emg3d/simulations.py')
+    c12.to_dict_tol(ctx, sm_, sm_.method('Simulation', 'to_dict'),
+                    'C17.K2.plain')
+    # the constructor keeps the data as given: no dtype cast of the data
+    # sets (real-valued noise arrays / standard deviations must stay real)
+    su_ = ctx.repo.mod('emg3d/surveys.py')
+    idt = su_.method('Survey', '_initiate_dataset')
+    ctx.check('C17.K2.plain', 'Survey._initiate_dataset: data sets stored as '
+              'given', has('{_k_: xarray.DataArray(_v_, dims=_d_) for _k_, '
+                           '_v_ in _data_.items()}', idt),
+              'the data sets are converted (cast / copied into another dtype) '
+              'when the Dataset is built: real-valued sets (noise floor, '
+              'relative error, standard deviation) come back with another '
+              'dtype after from_dict / load / copy', ctx.where(su_, idt))
     ctx.extra['registered_classes'] = sorted(known)
     rule_K3_K4(ctx)
     rule_oneshot(ctx)
